@@ -6,7 +6,7 @@ from hexlib import HexaryTrie, rlp, _nib
 from trie.exceptions import MissingTrieNode, MissingTraversalNode, TraversedPartialPath
 
 ID = "C07"
-LEAN_IMPORTS = ["PyTrie.Props.C07", "PyTrie.Props.NonVacuity3"]
+LEAN_IMPORTS = ["PyTrie.Props.C07", "PyTrie.Props.NonVacuity3", "PyTrie.Props.FreeExec"]
 THEOREMS = [
     "PyTrie.Props.C07.fetches_on_path",
     "PyTrie.Props.C07.get_missing_truthful",
@@ -45,6 +45,8 @@ THEOREMS = [
     "PyTrie.Props.NonVacuity3.failed_set_leaves_db",
     "PyTrie.Props.NonVacuity3.failed_delete_leaves_db",
     "PyTrie.Props.NonVacuity3.failed_root_leaves_db",
+    "PyTrie.Props.Free.op_partial",
+    "PyTrie.Props.Free.op_missing_atomic",
 ]
 RULE = ("tries built by generated histories (prune on/off), then a subset of node bodies removed from the database (every "
         "subset for small tries, random subsets otherwise, single nodes, everything), then one operation — get, exists, set, "
